@@ -42,6 +42,8 @@ def gen(W):
     sc["nh"] = nh
     sc["host"] = "app.example"
     sc["url_scheme"] = "http"
+    # the option may be spelled the way the header names are usually written
+    sc["tph_spelling"] = W.choice(["lower", "title", "upper", "string"], p0=0.5)
     return sc
 
 
@@ -107,8 +109,18 @@ def run_one(tapes, tier, scenario=None):
     sc = scenario if scenario is not None else gen(tapes.W)
     res = RunResult()
     res.scenario = sc
+    sp = sc.get("tph_spelling", "lower")
+    names = sorted(sc["tph"])
+    if sp == "title":
+        tph_cfg = {proxygen.WIRE_NAME[n] for n in names}
+    elif sp == "upper":
+        tph_cfg = {n.upper() for n in names}
+    elif sp == "string":
+        tph_cfg = " ".join(proxygen.WIRE_NAME[n] for n in names)
+    else:
+        tph_cfg = set(names)
     knobs = dict(threads=1, trusted_proxy=PEER, trusted_proxy_count=sc["count"],
-                 trusted_proxy_headers=set(sc["tph"]), url_scheme=sc["url_scheme"])
+                 trusted_proxy_headers=tph_cfg, url_scheme=sc["url_scheme"])
     sim = Simulation(tapes, knobs=knobs, net=NetConfig(), sched={"kind": "rtb"}, horizon=30.0)
     k = sim.k
     k.log("scenario", hashlib.sha256(repr(sorted(sc.items(), key=str)).encode("utf-8", "backslashreplace")).hexdigest()[:16])
